@@ -488,3 +488,54 @@ Proof.
   apply in_map_iff in H1. destruct H1 as [[k' n] [E Hp]]. cbn in E. subst k'.
   exists (k, n). split; [exact Hp|]. unfold bad_node. cbn. now rewrite H2.
 Qed.
+
+(* ---------- every descendant is visited, at every depth ---------- *)
+Inductive descendant : pyast -> pyast -> Prop :=
+| desc_refl : forall t, descendant t t
+| desc_child : forall k n cs c s, In c cs -> descendant s c -> descendant s (Node k n cs).
+
+Definition ident_of (t : pyast) : nat := match t with Node _ n _ => n end.
+
+Lemma accepted_children wl k n cs c :
+  first_bad wl (Node k n cs) = None -> In c cs -> first_bad wl c = None.
+Proof.
+  rewrite first_bad_node. destruct (whitelisted wl k); [|discriminate].
+  destruct (reserved_name k n); [discriminate|].
+  intros H Hc. apply first_bad_list_none in H. rewrite Forall_forall in H. now apply H.
+Qed.
+
+(* acceptance of a tree is acceptance of every sub-tree, whatever the kinds of
+   the nodes in between (Attribute, Subscript, Call, ...) *)
+Lemma accepted_descendant wl t s :
+  descendant s t -> first_bad wl t = None -> first_bad wl s = None.
+Proof.
+  induction 1 as [t|k n cs c s Hc Hd IH]; [auto|].
+  intros H. apply IH. eapply accepted_children; eauto.
+Qed.
+
+Lemma accepted_descendant_whitelisted wl t s :
+  descendant s t -> first_bad wl t = None ->
+  whitelisted wl (kind_of s) = true /\ reserved_name (kind_of s) (ident_of s) = false.
+Proof.
+  intros Hd H. pose proof (accepted_descendant wl t s Hd H) as Hs.
+  destruct s as [k n cs]. rewrite first_bad_node in Hs. cbn.
+  destruct (whitelisted wl k); [|discriminate].
+  destruct (reserved_name k n); [discriminate|auto].
+Qed.
+
+(* the visit order contains every descendant *)
+Lemma descendant_in_preorder t s :
+  descendant s t -> In (kind_of s, ident_of s) (preorder_nodes t).
+Proof.
+  induction 1 as [t|k n cs c s Hc Hd IH].
+  - destruct t as [k n cs]. cbn. now left.
+  - cbn [preorder_nodes]. right. apply in_flat_map. eauto.
+Qed.
+
+(* a bad node anywhere below the root makes the whole expression rejected *)
+Lemma bad_descendant_rejected wl t s :
+  descendant s t -> bad_node wl (kind_of s, ident_of s) = true ->
+  exists k, first_bad wl t = Some k.
+Proof.
+  intros Hd Hb. apply rejected_iff. eexists. split; [eapply descendant_in_preorder; eauto|exact Hb].
+Qed.
